@@ -512,6 +512,10 @@ func (proxy *PgProxy) handleBindPacket(ctx context.Context, packet *PacketHandle
 		logger.WithError(err).Error("Failed to handle Bind packet: can't find prepared statement")
 		return false, nil
 	}
+	// next RowDescription and DataRow packets describe result of this statement, not of the last parsed one
+	if pgStatement, ok := statement.(*PgPreparedStatement); ok {
+		encryptor.SaveQueryDataItemsToClientSession(proxy.session, pgStatement.QueryDataItems())
+	}
 	// Now, repackage the parameters for processing... If that fails, let the packet through too.
 	parameters, err := bind.GetParameters()
 	if err != nil {
@@ -1091,6 +1095,9 @@ func (proxy *PgProxy) registerPreparedStatement(packet *PacketHandler, preparedS
 			},
 		},
 	})
+	// settings of result columns were recognized by query observers on this Parse packet, keep them with the statement:
+	// it may be bound and executed later, after other queries
+	statement.SetQueryDataItems(encryptor.QueryDataItemsFromClientSession(proxy.session))
 	err = proxy.registry.AddStatement(statement)
 	if err != nil {
 		logger.WithField(logging.FieldKeyEventCode, logging.EventCodeErrorGeneral).
